@@ -622,7 +622,7 @@ func (w *World) LastNonce(identity string) int64 {
 }
 
 // CallTimeout bounds every harness-issued RPC (watchdog, not a verdict).
-var CallTimeout = 30 * time.Second
+var CallTimeout = 120 * time.Second
 
 // Signed issues a signed call (reference signer) over svc.
 func (w *World) Signed(svc jsonrpc2.Service, key *Identity, identity, method string, result interface{}, args ...interface{}) error {
@@ -636,11 +636,29 @@ func (w *World) SignedNonce(svc jsonrpc2.Service, key *Identity, identity, metho
 	return w.Raw(svc, method, result, append([]interface{}{sig, identity, nonce}, args...)...)
 }
 
+// ErrWatchdog is returned when a harness-issued RPC ran into the harness's own
+// watchdog. The pool may still be working on the request, so nothing may be
+// concluded from the state afterwards: the case is inconclusive.
+var ErrWatchdog = errors.New("harness watchdog fired (inconclusive)")
+
+// WatchdogFired counts watchdog expiries in this process.
+var WatchdogFired int64
+
+// IsWatchdog reports whether err is the harness watchdog.
+func IsWatchdog(err error) bool {
+	return err != nil && (err == ErrWatchdog || strings.Contains(err.Error(), ErrWatchdog.Error()))
+}
+
 // Raw issues an RPC with the watchdog timeout.
 func (w *World) Raw(svc jsonrpc2.Service, method string, result interface{}, params ...interface{}) error {
 	ctx, cancel := context.WithTimeout(context.Background(), CallTimeout)
 	defer cancel()
-	return svc.Call(ctx, result, method, params...)
+	err := svc.Call(ctx, result, method, params...)
+	if err != nil && ctx.Err() == context.DeadlineExceeded {
+		atomic.AddInt64(&WatchdogFired, 1)
+		return ErrWatchdog
+	}
+	return err
 }
 
 // ConnectReq builds a connect request.
